@@ -79,14 +79,16 @@ CLAIMED['C16'] = dict(
     text='Bounded symbolic model checking of the real MIR of decimal::parse_decimal_exactly / parse_rational_exactly / apply_exp10 on texts `[sign] digits [. digits] [e [sign] digits]` and `p/q` '
          'with symbolic digits (value == the exact rational the text spells; rejection only for texts that spell no number or exceed the documented exponent cap; no panic for 10-digit exponents), '
          'of the str_radix / int_radix closures (positional notation for every n < base^3 in both representations and signs, digit-string decoding, round trip) and of the NInt formatting impls '
-         '(same formatter and value for Small(n) and Big(n)).',
-    note='Partial: covers noulith\'s own codec code. Trusted/outside: base64, gzip, serde_json, UTF-8, std float parsing/printing, digit generation of the std/num formatters, longer digit strings, non-ASCII text.',
+         '(same formatter and value for Small(n) and Big(n)), and of the integer arm of json_encode (an integer JSON number with exactly that value iff it fits 64 bits, for either representation).',
+    note='Partial: covers noulith\'s own codec code. Trusted/outside: base64, gzip, serde_json (its Value constructors are recorders), UTF-8, std float parsing/printing, digit generation of the std/num formatters, longer digit strings, non-ASCII text.',
     design='§7 C15/C16', technique='symbolic execution of rustc MIR + SMT (z3) over symbolic digit strings')
 CLAIMED['C15'] = dict(
     text='Bounded symbolic model checking of the lexer units Lexer::{next, peek, emit, lex_simple_string_after_start, lex_base_and_emit, lex_base_64_and_emit} driven directly on a cursor over '
          'symbolic characters: plain runs, every single-character escape, \\\\x, \\\\u with and without each bracket kind and up to 9 (quick) / 10 hex digits decode to exactly the characters they spell, '
-         'Invalid tokens exactly for malformed or non-scalar escapes, radix accumulators (bases 2..36 and base-64) equal the sum of digit values over the maximal digit prefix; no path panics.',
-    note='Partial: the main Lexer::lex dispatch loop over arbitrary text, the recursive-descent parser, format-string bodies, float literals (std parse) and literal evaluation are outside (not encodable within reach).',
+         'Invalid tokens exactly for malformed or non-scalar escapes, radix accumulators (bases 2..36 and base-64) equal the sum of digit values over the maximal digit prefix; the main Lexer::lex loop driven on one '
+         'numeric literal (`<radix>r<digits>` for radix 2, 3, 8, 10, 16, 35, 36; `0x/0b/0o<digits>`; decimal; `<digits>q`) with 1-3 symbolic digits yields exactly one IntLit / RatLit token holding the number the text spells; '
+         'the parser units try_consume_u8 / try_consume_usize return the literal\'s value iff it is in range and a parse error otherwise (for every integer); no path panics.',
+    note='Partial: the Lexer::lex dispatch loop on arbitrary text (identifiers, operators, comments), the recursive-descent parser beyond the two integer units, format-string bodies, float literals (std parse) and literal evaluation are outside.',
     design='§7 C15/C16', technique='symbolic execution of rustc MIR + SMT (z3) over symbolic character sequences')
 CLAIMED['C14'] = dict(
     text='Panic-reachability by symbolic execution: a sweep over the builtin closures registered in initialize (found from the `name: .., body: |..|` registrations of the current source), each run with '
@@ -105,6 +107,16 @@ CLAIMED['C04'] = dict(
     note='Partial: covers the function-value layer. Outside: the parser/evaluator routes that turn `a + b`, `a +(b)`, `+(a, b)`, `(+)`, sections and backtick identifiers into these Func values (Expr evaluation needs the '
          'environment), user closures, operator assignment `a += b` (C02 covers its kernel), and builtins other than the arithmetic triples.',
     design='§7 C04', technique='symbolic execution of rustc MIR + SMT (z3) with recorder stubs for callee / index / slice / call')
+CLAIMED['C12'] = dict(
+    text='Bounded symbolic model checking of the pattern-matcher and type-predicate layer: (T) the real MIR of is_type, type_of and the numeric arms of call_type1 on 16 value kinds x 18 types '
+         '(numbers of every level and representation with symbolic values): `v is type(v)`, `v is anything`, `v is T` exactly for the documented classification, `T(v) is T` for int/rational/float/number; '
+         '(D) Builtin::destructure of Plus, Minus, Times, Divide (operands of every exact level pair, symbolic values) and Append, Prepend (lists of 0-3): success inverts the constructor, no path panics; '
+         '(P) eval::assign with assign_all / assign_all_basic / insert_declare / to_type / is_type / the destructure impls / Obj equality executed on ~110 pattern x value shapes with symbolic numbers '
+         '(sequence patterns of 1-3 names with the splat in every position against lists of length 0-4, two splats, literals, or / and, n + k, -x, nested sequences, annotations, trailing defaults) with Env::insert and '
+         'default-expression evaluation as recorders: every implementation path agrees with a reference matcher written from the documented rules on match / no match and on the value bound to every name, and never panics.',
+    note='Partial: declaration form only (rt = Some). Outside: assignment to existing variables and the later-assignment type checks (assign_respecting_type, every-assignment, swap need the environment), struct and '
+         'comparison-operator patterns, satisfying types, switch arm selection and catch (they call assign), conversion functions on strings and containers. Stubs: try_borrow(_mut)_nres, Env::insert, evaluate (defaults).',
+    design='§7 C12', technique='symbolic execution of rustc MIR + SMT (z3); reference matcher evaluated symbolically; recorder stubs for the environment')
 NOT_APPLICABLE = {
  'C13': 'sequence library vs executable specification: the deciding content is std collections glued by one-line closures over whole sequences; not encodable as a bounded solver query over noulith code (DESIGN §9); parts decided under C08/C09/C10/C11/C14',
  'C17': 'freeze: semantic equivalence of two recursive traversals over programs; a bounded solver query cannot carry it (DESIGN §9)',
